@@ -941,9 +941,18 @@ func c17events(out *rec.Out, rng *rec.Rng, stats map[string]int, cfg c17cfg) {
 		}
 	case "catch":
 		br := make([]eng.Frag, k+1)
+		// half of the cases: the first catch event is PARALLEL-MULTIPLE over the first two events — both are needed, and
+		// the volley hands them in from two goroutines at the same instant (whatever keeps the event's books is then
+		// used by both deliveries at once)
+		pm := rng.Intn(2) == 0
 		for j := 0; j < k; j++ {
 			ce := g.Add("intermediateCatchEvent", fmt.Sprintf("C%d", j), "")
 			ce.Defs = []eng.EventDef{{Kind: kinds[j], Name: names[j]}}
+			if pm && j == 0 {
+				ce.Defs = append(ce.Defs, eng.EventDef{Kind: kinds[1], Name: names[1]})
+				ce.ParallelMultiple = true
+				stats["catch_parallel_multiple"]++
+			}
 			t := g.Task("task", fmt.Sprintf("T%d", j), "")
 			g.Connect(ce, t.Entry, nil)
 			br[j] = eng.Frag{Entry: ce, Exit: t.Exit}
